@@ -192,7 +192,17 @@ def run_case(case, acc):
             acc.label("equal-after-whitespace-normalisation:%s" % tag.strip())
             continue
         diff.append(tag)
-        acc.fail("bytes", "table-differs:%s" % tag.strip(), "table %r: %d vs %d bytes, first difference at byte %d%s" % (tag, len(a), len(b), _firstdiff(a, b), "" if xa != xb else " (decoded content equal)"), case)
+        kind = "table-differs:%s" % tag.strip()
+        if tag == "head" and len(a) == len(b) == 54 and a[:20] == b[:20] and a[36:] == b[36:]:
+            # only created/modified differ: is it the documented-by-test clamping of dates before 1970?
+            import struct
+
+            ca, ma = struct.unpack(">qq", a[20:36])
+            cb, mb = struct.unpack(">qq", b[20:36])
+            E = 2082844800  # 1970-01-01 in seconds since 1904
+            if all((x == y) or (x < E and y == E) for x, y in ((ca, cb), (ma, mb))):
+                kind = "table-differs:head:timestamp-before-1970-clamped"
+        acc.fail("bytes", kind, "table %r: %d vs %d bytes, first difference at byte %d%s" % (tag, len(a), len(b), _firstdiff(a, b), "" if xa != xb else " (decoded content equal)"), case)
     nondefault = bool(opts) or newline != "\n" or via_cli
     structured = len(tablesA) >= 8
     labels = ["newline:%r" % newline, "cli" if via_cli else "api"] + ["opt:%s=%s" % (k, v if not isinstance(v, list) else "sel") for k, v in sorted(opts.items())]
